@@ -36,6 +36,8 @@ pub enum Ann {
     /// peer i announces itself and the packet's additional section also carries records owned by
     /// names outside the watched service (a host name, another service's instance)
     PeerPlusForeign(u8, u8),
+    /// peer i says goodbye: its records with TTL 0 (RFC 6762 10.1); it may advertise again later
+    Goodbye(u8),
 }
 
 #[derive(Debug, Clone, PartialEq, Eq, Hash, serde::Serialize, serde::Deserialize)]
@@ -100,9 +102,29 @@ fn announcement(info: InstanceInformation, owner: &str, ttl: u32) -> Result<Vec<
     announcement_with(info, owner, ttl, &[])
 }
 
+thread_local! {
+    /// a peer turns its description into records once (as ServiceDiscovery::new does) and announces
+    /// those same records every time; a goodbye is the same records with TTL 0
+    static RECORDS: std::cell::RefCell<HashMap<String, Vec<ResourceRecord<'static>>>> = std::cell::RefCell::new(HashMap::new());
+}
+
 fn announcement_with(info: InstanceInformation, owner: &str, ttl: u32, foreign_additionals: &[&str]) -> Result<Vec<u8>, Fail> {
     let owner_name = Name::new(owner).map_err(|e| Fail::new("harness:name", format!("{}: {:?}", owner, e)))?.into_owned();
-    let records = lib("into_records", || info.into_records(&owner_name, ttl))?.map_err(|e| Fail::new("c15:into-records", format!("{:?}", e)))?;
+    let cached = RECORDS.with(|r| r.borrow().get(owner).cloned());
+    let records = match cached {
+        Some(mut recs) => {
+            for r in recs.iter_mut() {
+                r.ttl = ttl;
+            }
+            recs
+        }
+        None => {
+            let recs = lib("into_records", || info.into_records(&owner_name, ttl))?.map_err(|e| Fail::new("c15:into-records", format!("{:?}", e)))?;
+            let owned: Vec<ResourceRecord<'static>> = recs.into_iter().map(|r| r.into_owned()).collect();
+            RECORDS.with(|r| r.borrow_mut().insert(owner.to_string(), owned.clone()));
+            owned
+        }
+    };
     let mut p = Packet::new_reply(1);
     for r in &records {
         if matches!(r.rdata, RData::A(_) | RData::AAAA(_)) {
@@ -125,6 +147,7 @@ fn announcement_with(info: InstanceInformation, owner: &str, ttl: u32, foreign_a
 }
 
 fn check(d: &Disc, case: &mut Case) -> Result<(), Fail> {
+    RECORDS.with(|r| r.borrow_mut().clear());
     let service = SERVICES[d.service as usize % 2];
     let foreign = FOREIGN[d.service as usize % 2];
     let service_name = Name::new(service).unwrap().into_owned();
@@ -168,6 +191,14 @@ fn check(d: &Disc, case: &mut Case) -> Result<(), Fail> {
                 let hosts = [format!("{}.local", p.name), format!("{}.{}", p.name, foreign[*w as usize % 4]), service.to_string()];
                 let hs: Vec<&str> = hosts.iter().map(|s| s.as_str()).take(1 + (*w as usize % 3)).collect();
                 (announcement_with(info_of(p, &p.name), &owner, d.ttl, &hs)?, Some(e))
+            }
+            Ann::Goodbye(i) => {
+                noise += 1;
+                let p = &d.peers[*i as usize % d.peers.len()];
+                let owner = format!("{}.{}", p.name, service);
+                // TTL 0: the records are gone at once; nothing is reported for this peer until it advertises again
+                expected.remove(&owner);
+                (announcement(info_of(p, &p.name), &owner, 0)?, Some((None, summary_of_peer(p))))
             }
             Ann::Own => {
                 noise += 1;
@@ -259,7 +290,7 @@ fn peer_names() -> Vec<&'static str> {
 fn attr_strategy() -> BoxedStrategy<Vec<(String, Option<String>)>> {
     vec(
         (
-            prop_oneof![4 => "[a-z]{1,5}", 1 => select(vec!["k;", "path", "é", "K"]).prop_map(|s| s.to_string())],
+            prop_oneof![4 => "[a-z]{1,5}", 2 => select(vec!["k;", "path", "Path", "PATH", "é", "K", "k", "PaperSize", "papersize"]).prop_map(|s| s.to_string())],
             prop_oneof![1 => Just(None), 1 => Just(Some(String::new())), 3 => "[a-z0-9=]{1,6}".prop_map(Some)],
         ),
         0..4,
@@ -302,6 +333,7 @@ fn strategy(_t: Tier) -> BoxedStrategy<Disc> {
         2 => (0u8..4, 0u8..5).prop_map(|(w, i)| Ann::Foreign(w, i)),
         3 => (0u8..5).prop_map(Ann::Deeper),
         3 => (0u8..5, 0u8..12).prop_map(|(i, w)| Ann::PeerPlusForeign(i, w)),
+        2 => (0u8..5).prop_map(Ann::Goodbye),
     ];
     (0u8..2, vec(peer, 1..=5), vec(ann, 1..10), any::<bool>(), select(vec![60u32, 120, 4500]), any::<u8>())
         .prop_map(|(service, peers, seq, channel, ttl, rot)| {
@@ -346,7 +378,7 @@ fn check_escape(s: &String, case: &mut Case) -> Result<(), Fail> {
 pub fn def() -> CheckDef {
     CheckDef {
         id: "C15",
-        rule: "model-based: a watched service (_srv._tcp.local or _my._udp.local), a discoverer named 'self', 1..5 peers with distinct valid single-label names, 0..4 IPv4/IPv6 addresses, 0..4 ports and attribute lists (values absent / empty / non-empty), and sequences of 1..9 announcements: peers (repeated), the discoverer's own instance, PTR records owned by the service name, the peers' records under textually colliding foreign services (_srvx._tcp.local, x_srv._tcp.local, _srv._tcpx.local, _tcp.local) and under deeper names (a.<peer>.<service>), and peer announcements whose additional section also carries A/SRV/TXT records owned by names outside the service (a host name, another service's instance, the service name itself). Each announcement is assembled like ServiceDiscovery::announce (into_records, answers + address records as additionals), serialised with build_bytes_vec_compressed, parsed, ingested with the receive loop's add_response_to_resources (with and without an on_discovery channel) and read back exactly as get_known_services does. Oracle: every advertised peer is reported exactly once with exactly its name, address set, port set and attribute map; the number of reported instances equals the number of advertised strict-subdomain owners and each equals one owner's record set; nothing for the discoverer, the service name or foreign services; channel messages equal the instance just announced and none is delivered for records that must not be reported. Separately, unescape(escape(s)) == s for generated strings biased to '.' and '\\\\'. Non-trivial = >= 2 peers, a multi-member set, or noise present",
+        rule: "model-based: a watched service (_srv._tcp.local or _my._udp.local), a discoverer named 'self', 1..5 peers with distinct valid single-label names, 0..4 IPv4/IPv6 addresses, 0..4 ports and attribute lists (values absent / empty / non-empty), and sequences of 1..9 announcements: peers (repeated), the discoverer's own instance, PTR records owned by the service name, the peers' records under textually colliding foreign services (_srvx._tcp.local, x_srv._tcp.local, _srv._tcpx.local, _tcp.local) and under deeper names (a.<peer>.<service>), and peer announcements whose additional section also carries A/SRV/TXT records owned by names outside the service (a host name, another service's instance, the service name itself), and goodbyes (TTL 0) after which the peer may advertise again. Each announcement is assembled like ServiceDiscovery::announce (into_records, answers + address records as additionals), serialised with build_bytes_vec_compressed, parsed, ingested with the receive loop's add_response_to_resources (with and without an on_discovery channel) and read back exactly as get_known_services does. Oracle: every advertised peer is reported exactly once with exactly its name, address set, port set and attribute map; the number of reported instances equals the number of advertised strict-subdomain owners and each equals one owner's record set; nothing for the discoverer, the service name or foreign services; channel messages equal the instance just announced and none is delivered for records that must not be reported. Separately, unescape(escape(s)) == s for generated strings biased to '.' and '\\\\'. Non-trivial = >= 2 peers, a multi-member set, or noise present",
         assumptions: vec![
             "driven through simple_mdns::verif (hook): ResourceRecordManager, add_response_to_resources of the sync service discovery, InstanceInformation::from_records",
             "for deeper names only the record sets are compared (the statement does not define their instance name)",
